@@ -6,11 +6,66 @@ ROOT = os.path.dirname(os.path.dirname(os.path.abspath(__file__)))
 
 # id -> (level category, technique, level text, level note, design ref)
 CHECKS = {
+  "C01": ("exploration",
+          "proptest token grammar + bounded-exhaustive single-bit flips against an independent JWS splitter and reference signature verification",
+          "Generated JWS offers in all three serializations are decoded by an independent byte/JSON splitter; a recording verifier checks the exact (alg, signing input, signature, key) handed over; every single-bit flip of 108 verifying tokens (Ed25519, ES256, ES256K) must be rejected; an exhaustive alg/key configuration table runs against the concrete verifiers.",
+          "Trusts the harness splitter, iota-crypto/p256/k256 as reference verifiers and serde_json. Only the 'verified only if' direction is asserted. ECDSA high-S malleability is outside single-bit mutations.",
+          "DESIGN.md §2 C01"),
+  "C04": ("exploration",
+          "model-based stateful testing: bounded-exhaustive and random operation histories against a set-of-entries document model",
+          "All operation histories to depth 2 (quick) / 3 (thorough) over 43 operations from 7 starting documents, plus random histories to length 25; after every step the id constraints are evaluated on the JSON output by harness code, the JSON round trip is checked, frame conditions are checked against the reported result, and 21 queries x 7 scopes are compared with the abstract model.",
+          "Trusts the harness document model and serde_json; unchecked accessors are outside 'checked mutations'. Two known findings (path/query id variants) are tolerated by signature.",
+          "DESIGN.md §2 C04"),
+  "C05": ("exploration",
+          "seed-mutation and structural JSON mutation sweep over ~50 entry points with accessor sweeps; libFuzzer target re-using the same entry functions (thorough)",
+          "Every entry point that parses/decodes/validates external data is fed committed seeds, exhaustive short strings, byte-edit scripts, structural JSON mutations and cross-fed seeds; accepted values go through a full accessor/formatter/serialiser sweep; any panic (overflow checks on) is the violation, identified by panic site.",
+          "Process aborts (stack exhaustion, OOM) cannot be caught in-process (exit 2 / libFuzzer artifact). Inputs are size-capped. One known finding (dependency did_url_parser panic) is tolerated by panic site.",
+          "DESIGN.md §2 C05"),
+  "C08": ("exploration",
+          "proptest round trips of encoder output through the decoder plus an independent splitter; storage-backed signing vs verify_jws with mirrored and adversarial options",
+          "Encoder cases over payload classes x header sets x b64 x detached x charset x 1..4 recipients are decoded by the library and by the harness splitter and verified with Ed25519; documents built with generate_method sign through create_jws/create_*_jwt and must verify only under the producing method, nonce and containing scopes.",
+          "Header sets are drawn from the C11 accept region; key generation uses OS randomness (outcome key-independent).",
+          "DESIGN.md §2 C08"),
+  "C09": ("fault_enumeration",
+          "exhaustive enumeration of the storage-fault decision tree by systematic re-execution, plus proptest histories with random fault plans",
+          "Every reachable subset of failing storage calls (indexed by call occurrence, both stores) is enumerated for generate_method and purge_method over 108 + 154 document shapes and all length-2 (thorough 3) operation sequences, for CoreDocument and IotaDocument; document and inner stores are snapshotted before/after each operation.",
+          "Faults are fail-stop (error without effect); state after an explicit UndoOperationFailed is not judged; only the in-memory stores are wrapped.",
+          "DESIGN.md §2 C09"),
+  "C11": ("exploration",
+          "complete enumeration of the header decision table against an independent transcription of the rule list; decorated random rows",
+          "All 8 857 header rows x 15 encoder/decoder entry points are enumerated and compared with accept/reject computed by a clause-by-clause transcription of the statement; decorated rows add harmless members and member order variations.",
+          "Trusts the rule transcription (model/jose_policy.rs). Three 'either' classes are not judged (header-less recipients at the encoders, b64 absent vs true, valid neighbour of an invalid signature).",
+          "DESIGN.md §2 C11"),
   "C13": ("exploration",
-          "bounded-exhaustive grid + proptest generators against an integer calendar reference model",
-          "Exhaustive enumeration of both range ends x every UTC offset x fraction lengths, plus seeded proptest generation of RFC 3339 strings, unix seconds, duration arithmetic and ordering pairs, each compared with an independent days-from-civil integer model and round-trip identities. Absence beyond the explored inputs is not established.",
+          "bounded-exhaustive grid + proptest generators against an integer calendar reference model; libFuzzer target (thorough)",
+          "Exhaustive enumeration of both range ends x every UTC offset x fraction lengths, plus seeded proptest generation of RFC 3339 strings, unix seconds, duration arithmetic and ordering pairs, each compared with an independent days-from-civil integer model and round-trip identities.",
           "Trusts the harness's own calendar arithmetic (unit-tested anchors) and serde_json; a seconds field of 60 may be read either way.",
           "DESIGN.md §2 C13"),
+  "C14": ("exploration",
+          "proptest document generator with the harness's own JSON rewrite as oracle; exhaustive header-byte sweep and framing grid",
+          "Generated IOTA documents (self/foreign ids in every position) are packed and unpacked for the same and for other DIDs and compared with the harness's own rendering; every header byte position x 256 values, length-prefix and truncation grids and trailing bytes are checked against a transcription of the framing rule; oversize bodies are measured exactly.",
+          "Documents mentioning the reserved placeholder are not generated; the colliding-target class may be an error or the rewrite.",
+          "DESIGN.md §2 C14"),
+  "C15": ("exploration",
+          "model-based stateful testing of the key stores; OS-thread race stress for the key-id store",
+          "Operation histories (<= 40 ops, valid and invalid arguments) run against JwkMemStore/KeyIdMemstore and a reference model with independent RFC 7638 thumbprints and iota-crypto verification; 2..16 threads released by a barrier race to insert one digest.",
+          "The Stronghold store is not built in this harness (not covered). The thread schedule is the OS's: the race part is statistical stress. generate uses OS randomness (verdicts key-independent).",
+          "DESIGN.md §2 C15"),
+  "C18": ("exploration",
+          "bounded-exhaustive grid + proptest JWK specs against an independent RFC 7638 / private-member model; setter histories; generated-key documents",
+          "All (kty, parameter family, private-member subset, foreign members, key_ops, route) combinations plus random specs are checked for projection cleanliness, idempotence, is_public, thumbprint invariance and kty/params coherence; constructors and generate_method output are searched for private members and secret strings.",
+          "Trusts model/jwk_ref.rs (unit-tested on RFC vectors). set_params_unchecked/params_mut are excluded as explicitly unchecked.",
+          "DESIGN.md §2 C18"),
+  "C19": ("exploration",
+          "bounded-exhaustive operation sequences + random sequences against a duplicate-free list model; exhaustive small JSON documents",
+          "All sequences of length <= 4 (thorough 5) over keys {0,1,2} for both element types, random sequences to length 60, constructor and wrapper histories and JSON documents with duplicates/empties/singletons are compared step by step with the model.",
+          "replace is modelled from the Infra ordered-set definition the rustdoc cites. Singleton arrays offered to the wrappers may be accepted or rejected.",
+          "DESIGN.md §2 C19"),
+  "C20": ("exploration",
+          "schedule enumeration: a hand-written executor releases gate futures in every permutation; proptest handler tables and DID lists",
+          "Handler futures complete only when the harness opens their gate; for n <= 4 (thorough 5) distinct DIDs every completion order x pre-released prefix is enumerated and resolve_multiple must give the same map as single resolution; dispatch, unsupported methods, failures and did:jwk expansion are compared with a table model.",
+          "Completion order is fully generated (no OS threads involved). 'Called at least once' rather than exactly once is demanded.",
+          "DESIGN.md §2 C20"),
 }
 
 PENDING_REASON = "check not built yet in this round (planned, see DESIGN.md §2); not claimed until its machinery exists"
